@@ -25,6 +25,7 @@ EXTENDS HQ
 
 CONSTANTS
   WorkerCpus,      \* [w -> cpus]  (1/10000 units) workers connected from the start
+  WorkerGroup,     \* [w -> group name]
   Menu,            \* Seq of submits: [job, tasks : Seq([id, deps, rq, prio]), climit, maxFails]
   Classes,         \* the `classes` value (Seq of Seq of variants)
   MaxLosses, MaxCancels, MaxFails, MaxLaunchFails,
@@ -76,6 +77,23 @@ TryRemoveRedirection(C, t) ==
   IF C.pn = "" /\ t \in DOMAIN C.redirect
   THEN LET r == C.redirect[t] IN RemoveSn([C EXCEPT !.redirect = Without(@, t)], r.w, t, C.task[t].rq, r.v)
   ELSE C
+
+\* ---- multi-node bookkeeping (Worker::set_mn_task / reset_mn_task, reset_mn_task_workers)
+IsFreeW(sw) == sw.kind = "sn" /\ sw.assigned = {} /\ sw.prefilled = {} /\ ~sw.stopping
+SetMn(C, w, t, root) ==
+  IF C.pn # "" THEN C
+  ELSE IF w \notin DOMAIN C.srv THEN Pn(C, "get_worker_mut")
+  ELSE IF ~IsFreeW(C.srv[w]) THEN Pn(C, "set_mn_task")
+  ELSE [C EXCEPT !.srv[w] = [@ EXCEPT !.kind = "mn", !.free = <<>>, !.mn = t, !.root = root]]
+ResetMn(C, w) ==
+  IF C.pn # "" THEN C
+  ELSE IF w \notin DOMAIN C.srv THEN Pn(C, "get_worker_mut")
+  ELSE [C EXCEPT !.srv[w] = [@ EXCEPT !.kind = "sn", !.assigned = {}, !.prefilled = {}, !.free = C.srv[w].total, !.mn = 0, !.root = FALSE]]
+ResetMnWorkers(C, ws, t) ==
+  FoldSeqLeft(LAMBDA CC, w : IF CC.pn # "" THEN CC
+                             ELSE IF w \notin DOMAIN CC.srv THEN Pn(CC, "get_worker_mut")
+                             ELSE IF CC.srv[w].kind # "mn" \/ CC.srv[w].mn # t THEN Pn(CC, "reset_mn_task_workers")
+                             ELSE ResetMn(CC, w), C, ws)
 
 \* ---- queues (scheduler/taskqueue.rs)
 NoPrefill(q) == [q EXCEPT !.hasPrefill = FALSE, !.pprio = -1, !.pset = {}]
@@ -197,6 +215,7 @@ OnCancel(C, ids) ==
           [] x.st \in {"A", "X"} -> [RemoveSn(CC, x.w, t, x.rq, x.v) EXCEPT !.ns = TRUE, !.cancel = @ \cup {<<x.w, t>>}]
           [] x.st = "R" -> [TryRemoveRedirection(CC, t) EXCEPT !.ns = TRUE, !.cancel = @ \cup {<<x.w, t>>}]
           [] x.st = "P" -> [RemovePrefill(QRemovePrefilled(CC, x.rq, t), x.w, t) EXCEPT !.cancel = @ \cup {<<x.w, t>>}]
+          [] x.st = "M" -> [FoldSeqLeft(ResetMn, CC, x.ws) EXCEPT !.ns = TRUE, !.cancel = @ \cup {<<x.ws[1], t>>}]
           [] OTHER -> Pn(CC, "on_cancel_tasks_state")
       C1 == FoldSeqLeft(Step, [C EXCEPT !.cancel = {}], SortedIds(present))
       C2 == RemoveTasks(C1, unreg)
@@ -212,6 +231,9 @@ TaskFailed(CJ, w, t, cls) ==
   IF C.pn # "" \/ J.pn # "" \/ t \notin DOMAIN C.task THEN CJ
   ELSE LET x == C.task[t]
            C1 == IF w = 0 THEN (IF x.st = "W" THEN C ELSE Pn(C, "task_failed_not_waiting"))
+                 ELSE IF IsMn(x.rq) THEN
+                        (IF x.st # "M" THEN Pn(C, "mn_placement_unwrap")
+                         ELSE IF x.ws[1] # w THEN Pn(C, "task_failed_worker") ELSE ResetMnWorkers(C, x.ws, t))
                  ELSE CASE x.st \in {"A", "X"} -> IF x.w # w THEN Pn(C, "task_failed_worker") ELSE RemoveSn(C, w, t, x.rq, x.v)
                         [] x.st = "P" -> IF x.w # w THEN Pn(C, "task_failed_worker") ELSE RemovePrefill(QRemovePrefilled(C, x.rq, t), w, t)
                         [] x.st = "R" -> IF x.w # w THEN Pn(C, "task_failed_worker") ELSE TryRemoveRedirection(C, t)
@@ -233,6 +255,7 @@ TaskFinished(CJ, w, t) ==
            C1 == CASE x.st \in {"A", "X"} -> IF x.w # w THEN Pn(C, "task_finished_worker") ELSE RemoveSn(C, w, t, x.rq, x.v)
                    [] x.st = "R" -> IF x.w # w THEN Pn(C, "task_finished_worker")
                                     ELSE LET Cr == TryRemoveRedirection(C, t) IN [Cr EXCEPT !.queue[x.rq] = QRemove(@, t, x.prio)]
+                   [] x.st = "M" -> IF x.ws[1] # w THEN Pn(C, "task_finished_worker") ELSE ResetMnWorkers(C, x.ws, t)
                    [] OTHER -> Pn(C, "task_finished_state")
            J1 == IF C1.pn = "" THEN JTaskFinished(J, t) ELSE J
            cons == ConsumersIn(C1, t)
@@ -269,6 +292,9 @@ TaskRunning(CJ, w, t, v) ==
                        short == w \in DOMAIN C1.srv /\ \E r \in 1..NRes(w) : C1.srv[w].free[r] < ReqAmount(x.rq, v, r, w)
                    IN <<[C2 EXCEPT !.task[t] = [@ EXCEPT !.st = "X", !.v = v], !.drift = IF short THEN @ \cup {w} ELSE @],
                         JTaskStarted(J, t, x.inst, <<w>>, v)>>
+         [] x.st = "M" ->
+              \* assigned and running are not distinguished for multi-node tasks: only the start is announced
+              IF x.ws[1] # w THEN <<Pn(C, "task_running_mn_root"), J>> ELSE <<C, JTaskStarted(J, t, x.inst, x.ws, v)>>
          [] OTHER -> <<Pn(C, "task_running_state"), J>>
 
 \* task_reject
@@ -343,22 +369,31 @@ OnNewTasks(C, ts, info) ==
 \* on_remove_worker (single-node workers); ord = the order in which the tasks that ran on w are visited by the crash
 \* accounting (the code iterates a hash set: when a failure limit aborts the rest of the job, the order decides which
 \* task ends failed and which aborted)
-RunningOn(C, w) == {t \in C.srv[w].assigned : t \in DOMAIN C.task /\ C.task[t].st = "X"}
+RunningOn(C, w) ==
+  IF C.srv[w].kind = "sn" THEN {t \in C.srv[w].assigned : t \in DOMAIN C.task /\ C.task[t].st = "X"}
+  ELSE {t \in {C.srv[w].mn} : t \in DOMAIN C.task /\ C.task[t].st = "M" /\ C.task[t].ws[1] = w}
 OnRemoveWorker(C, J, w, fail, ord) ==
   LET sw == C.srv[w]
       C0 == [C EXCEPT !.srv = Without(@, w), !.out = Without(@, w), !.retr = {}]
       \* prefilled tasks of the lost worker go back first
       StepP(CC, t) ==
         [QMovePrefilledToReady(CC, CC.task[t].rq, t) EXCEPT !.task[t] = [@ EXCEPT !.st = "W", !.nd = 0, !.w = 0, !.v = -1, !.inst = @ + 1]]
-      C1 == FoldSeqLeft(StepP, C0, SortedIds(sw.prefilled))
-      running == {t \in sw.assigned : t \in DOMAIN C.task /\ C.task[t].st = "X"}
       StepA(CC, t) ==
         IF t \notin DOMAIN CC.task THEN Pn(CC, "get_task_mut")
         ELSE IF CC.task[t].st = "R" THEN
            (IF t \notin DOMAIN CC.redirect THEN Pn(CC, "remove_worker_redirect")
             ELSE AddReady([CC EXCEPT !.redirect = Without(@, t), !.task[t].inst = @ + 1], t))
         ELSE AddReady([CC EXCEPT !.task[t] = [@ EXCEPT !.st = "W", !.nd = 0, !.w = 0, !.v = -1, !.inst = @ + 1]], t)
-      C2 == FoldSeqLeft(StepA, C1, SortedIds(sw.assigned))
+      \* single-node worker: its prefilled, then its assigned tasks; multi-node worker: its task (root) or just its seat (non-root)
+      C2 == IF sw.kind = "sn" THEN FoldSeqLeft(StepA, FoldSeqLeft(StepP, C0, SortedIds(sw.prefilled)), SortedIds(sw.assigned))
+            ELSE IF sw.mn \notin DOMAIN C0.task THEN Pn(C0, "get_task_mut")
+            ELSE LET x == C0.task[sw.mn] IN
+                 IF x.st # "M" THEN Pn(C0, "remove_worker_mn_state")
+                 ELSE IF x.ws[1] = w THEN
+                    LET C5 == FoldSeqLeft(ResetMn, C0, Tail(x.ws))
+                    IN AddReady([C5 EXCEPT !.task[sw.mn] = [@ EXCEPT !.st = "W", !.nd = 0, !.w = 0, !.v = -1, !.ws = <<>>, !.inst = @ + 1]], sw.mn)
+                 ELSE [C0 EXCEPT !.task[sw.mn].ws = SelectSeq(@, LAMBDA y : y # w)]
+      running == RunningOn(C, w)
       \* tasks retracting FROM the lost worker
       StepR(CC, t) ==
         LET x == CC.task[t] IN
@@ -387,7 +422,7 @@ OnRemoveWorker(C, J, w, fail, ord) ==
 (* the state as records, and writing a result back *)
 CoreRec == [task |-> task, queue |-> queue, redirect |-> redirect, srv |-> srv, ns |-> needSched, need |-> FALSE,
             out |-> [w \in DOMAIN srv |-> <<>>], pn |-> "", retr |-> {}, cancel |-> {}, moved |-> <<>>,
-            asg |-> <<>>, rets |-> <<>>, pfs |-> <<>>, drift |-> drift]
+            asg |-> <<>>, rets |-> <<>>, pfs |-> <<>>, mnsent |-> <<>>, drift |-> drift]
 JobRec == [job |-> job, ev |-> <<>>, pn |-> ""]
 
 ApplyJobEvent(h, ev) ==
@@ -421,7 +456,7 @@ Init ==
   /\ task = <<>> /\ redirect = <<>> /\ needSched = TRUE
   /\ queue = [rq \in 0..(Len(Classes) - 1) |-> [ready |-> {}, hasPrefill |-> FALSE, pprio |-> -1, pset |-> {}]]
   /\ srv = [w \in DOMAIN WorkerCpus |-> [kind |-> "sn", assigned |-> {}, prefilled |-> {}, free |-> <<WorkerCpus[w]>>, total |-> <<WorkerCpus[w]>>,
-                                          blocked |-> {}, stopping |-> FALSE, group |-> "default", mn |-> 0, root |-> FALSE]]
+                                          blocked |-> {}, stopping |-> FALSE, group |-> WorkerGroup[w], mn |-> 0, root |-> FALSE]]
   /\ wk = [w \in DOMAIN WorkerCpus |-> [running |-> {}, backlog |-> {}, blocked |-> {}, s2w |-> <<>>, w2s |-> <<>>, stopped |-> FALSE, remaining |-> -1]]
   /\ wkq = [w \in DOMAIN WorkerCpus |-> [rq \in 0..(Len(Classes) - 1) |-> <<>>]]
   /\ fut = {} /\ job = <<>> /\ streams = <<>> /\ now = 0 /\ classes = Classes
@@ -500,22 +535,56 @@ QueueAfterTake(q, o, n) ==
       pset |-> ps]
 
 \* a choice of the scheduler: for every class an order and a count, and for every taken task a worker and a variant
-ClassChoices(rq) == {<<o, n>> : o \in TakeOrders(queue[rq]), n \in 0..Cardinality(queue[rq].ready \cup queue[rq].pset)}
+ClassChoices(rq) == {<<o, n>> : o \in TakeOrders(queue[rq]), n \in IF IsMn(rq) THEN {0} ELSE 0..Cardinality(queue[rq].ready \cup queue[rq].pset)}
+
+\* multi-node placements of one round: for every multi-node class at most one task (the top of its queue: take_one) gets a
+\* sequence (root first) of distinct workers of one group that are free and not used by another placement of the round
+MnClasses == {rq \in DOMAIN queue : IsMn(rq) /\ queue[rq].ready # {}}
+MnTop(rq) == QueueSeq(queue[rq])[1]
+FreeWorkers(used) == {w \in DOMAIN srv : IsFreeW(srv[w]) /\ w \notin used}
+RECURSIVE MnChoices(_, _)
+MnChoices(rqs, used) == \* set of functions rq -> worker sequence (<<>> = not placed)
+  IF rqs = {} THEN {<<>>}
+  ELSE LET rq == Min(rqs)
+           n == Variant(rq, 0).n_nodes
+           seqs == {s \in UNION {SetToSeqs(S) : S \in {S \in SUBSET FreeWorkers(used) : Cardinality(S) = n}} :
+                      Cardinality({srv[s[i]].group : i \in DOMAIN s}) <= 1}
+       IN {(rq :> <<>>) @@ f : f \in MnChoices(rqs \ {rq}, used)}
+          \cup UNION {{(rq :> s) @@ f : f \in MnChoices(rqs \ {rq}, used \cup SeqSet(s))} : s \in seqs}
+MnUsed(mn) == UNION {SeqSet(mn[rq]) : rq \in DOMAIN mn}
+ApplyMn(C, mn) ==
+  FoldSeqLeft(LAMBDA CC, rq :
+                IF mn[rq] = <<>> \/ CC.pn # "" THEN CC
+                ELSE LET t == MnTop(rq)
+                         C1 == FoldSeqLeft(LAMBDA C5, i : SetMn(C5, mn[rq][i], t, i = 1), CC, [i \in DOMAIN mn[rq] |-> i])
+                     IN IF C1.pn # "" THEN C1
+                        ELSE IF C1.task[t].st # "W" \/ C1.task[t].nd # 0 THEN Pn(C1, "mn_mapping_state")
+                        ELSE [C1 EXCEPT !.task[t] = [@ EXCEPT !.st = "M", !.w = mn[rq][1], !.v = 0, !.ws = mn[rq]],
+                                        !.queue[rq].ready = @ \ {t},
+                                        !.mnsent = Append(@, t)],
+              C, SortedIds(DOMAIN mn))
 Fits(m) == \* m : [taken tasks -> <<worker, variant>>]
   /\ \A t \in DOMAIN m : LET w == m[t][1]  v == m[t][2] IN
         /\ srv[w].kind = "sn" /\ ~srv[w].stopping /\ <<task[t].rq, v>> \notin srv[w].blocked /\ TotalCovers(w, task[t].rq, v)
-  /\ \A w \in DOMAIN srv : \A r \in 1..NRes(w) :
+        /\ ~IsMn(task[t].rq)
+  /\ \A w \in {x \in DOMAIN srv : srv[x].kind = "sn"} : \A r \in 1..NRes(w) :
         SumOver({t \in DOMAIN m : m[t][1] = w}, LAMBDA t : ReqAmount(task[t].rq, m[t][2], r, w)) <= srv[w].free[r]
 
 \* the scheduler assumption used for the progress property C02: a class is cut short only when no worker can take one more task
 \* of it (the real solver is compared with this on recorded runs: C02_QuiescentOk in HQTrace, C15 in SchedTrace)
 MaximalChoice(ch, m) ==
-  \A rq \in DOMAIN queue :
+  \A rq \in {x \in DOMAIN queue : ~IsMn(x)} :
      ch[rq][2] < Cardinality(queue[rq].ready \cup queue[rq].pset) =>
        ~\E w \in DOMAIN srv :
            /\ srv[w].kind = "sn" /\ ~srv[w].stopping /\ <<rq, 0>> \notin srv[w].blocked /\ TotalCovers(w, rq, 0)
            /\ \A r \in 1..NRes(w) :
                  SumOver({t \in DOMAIN m : m[t][1] = w}, LAMBDA t : ReqAmount(task[t].rq, m[t][2], r, w)) + ReqAmount(rq, 0, r, w) <= srv[w].free[r]
+
+MaximalMn(mn, m) ==
+  \A rq \in DOMAIN mn : mn[rq] = <<>> =>
+     LET used == MnUsed(mn) \cup {m[t][1] : t \in DOMAIN m}
+         n == Variant(rq, 0).n_nodes
+     IN ~\E g \in {srv[w].group : w \in DOMAIN srv} : Cardinality({w \in FreeWorkers(used) : srv[w].group = g}) >= n
 
 ApplyMapping(C, order, m) == \* order: Seq of taken tasks in processing order
   LET Step(CC, t) ==
@@ -578,8 +647,12 @@ SendMapping(C) ==
             ct == [i \in DOMAIN ps |-> ComputeOf(C, ps[i].t, -1)] \o [i \in DOMAIN as |-> ComputeOf(C, as[i].t, as[i].v)]
         IN (IF rs = <<>> THEN <<>> ELSE <<[k |-> "Retract", ids |-> [i \in DOMAIN rs |-> rs[i].t]]>>)
            \o (IF ct = <<>> THEN <<>> ELSE <<[k |-> "Compute", tasks |-> ct]>>)
-  IN [C EXCEPT !.out = [w \in DOMAIN C.out |-> IF w \in ws THEN C.out[w] \o MsgsFor(w) ELSE C.out[w]],
-               !.asg = <<>>, !.rets = <<>>, !.pfs = <<>>]
+      out1 == [w \in DOMAIN C.out |-> IF w \in ws THEN C.out[w] \o MsgsFor(w) ELSE C.out[w]]
+      \* multi-node tasks: one ComputeTasks to the root, carrying the node list
+      out2 == FoldSeqLeft(LAMBDA o, t : Send(o, C.task[t].ws[1], [k |-> "Compute",
+                             tasks |-> <<[t |-> t, inst |-> C.task[t].inst, v |-> 0, rq |-> C.task[t].rq, nodes |-> C.task[t].ws]>>]),
+                          out1, C.mnsent)
+  IN [C EXCEPT !.out = out2, !.asg = <<>>, !.rets = <<>>, !.pfs = <<>>, !.mnsent = <<>>]
 
 RECURSIVE ChoicesPerClass(_)
 ChoicesPerClass(rqs) == \* set of functions rq -> <<order, n>>
@@ -592,11 +665,11 @@ Schedule ==
        LET takenSeq == FoldSeqLeft(LAMBDA acc, rq : acc \o SubSeq(ch[rq][1], 1, ch[rq][2]), <<>>, SortedIds(DOMAIN queue))
            taken == SeqSet(takenSeq)
            q2 == [rq \in DOMAIN queue |-> QueueAfterTake(queue[rq], ch[rq][1], ch[rq][2])]
-       IN \E m \in [taken -> (DOMAIN srv) \X {0}] :
+       IN \E m \in [taken -> (DOMAIN srv) \X {0}] : \E mn \in MnChoices(MnClasses, {m[t][1] : t \in taken}) :
             /\ Fits(m)
-            /\ (Eager => MaximalChoice(ch, m))
+            /\ (Eager => MaximalChoice(ch, m) /\ MaximalMn(mn, m))
             /\ \E wo \in SetToSeqs(DOMAIN srv) :
-                 LET C1 == ApplyMapping([CoreRec EXCEPT !.queue = q2], takenSeq, m)
+                 LET C1 == ApplyMn(ApplyMapping([CoreRec EXCEPT !.queue = q2], takenSeq, m), mn)
                      C2 == SendMapping(ProactiveFill(C1, wo, PfReserve, PfMax))
                      C3 == [C2 EXCEPT !.ns = FALSE]
                  IN /\ Commit(C3, JobRec)
@@ -732,7 +805,8 @@ LoseWorker(w, fail) ==
         /\ mustCrash' = [t \in DOMAIN mustCrash |->
               mustCrash[t] + (IF fail /\ ~HasTerminal(t) /\ hist[t] # <<>> /\ Last(hist[t]).k = "Started" /\ Last(hist[t]).ws[1] = w THEN 1 ELSE 0)]
         /\ mayCrash' = [t \in DOMAIN mayCrash |->
-              mayCrash[t] + (IF fail /\ ((hist[t] # <<>> /\ Last(hist[t]).k = "Started" /\ w \in SeqSet(Last(hist[t]).ws)) \/ t \in RunningTids(w)) THEN 1 ELSE 0)]
+              mayCrash[t] + (IF fail /\ ((hist[t] # <<>> /\ Last(hist[t]).k = "Started" /\ w \in SeqSet(Last(hist[t]).ws)) \/ t \in RunningTids(w)
+                                          \/ (t \in DOMAIN task /\ task[t].st = "M" /\ w \in SeqSet(task[t].ws))) THEN 1 ELSE 0)]
         /\ wCancel' = {p \in wCancel : p[1] # w} /\ gaveBack' = {p \in gaveBack : p[1] # w}
   /\ budget' = [budget EXCEPT !.losses = @ - 1]
   /\ UNCHANGED <<tinfo, submitted, cancelAck, wstarts, ranOk, tstops, armedFail>> /\ unchangedStatic
